@@ -157,8 +157,12 @@ def run(ctx):
             rep.check(bad['lin'] is None and bad['shape'] is None, 'R3', 'wrap-keeps-linear-part', where(pb), 'only the two translation entries change',
                       bad['lin'] or ('result is not a 3x3 transform: %s' % bad['shape']))
             rep.sample('periodic: %d path(s), each x,y -> ((u - o) rem P + P) rem P + o' % len(outs))
-    nper = [k for k, s in ctx.cg.callers_of(lambda nm: nm == 'transform::Transform2::periodic')]
-    rep.check(len(nper) == 1, 'R3', 'single-wrap-site', where(b), 'one caller of periodic', 'periodic is called from %d places' % len(nper))
+    # distinct source call sites (a helper spliced into its caller shows the same site in two bodies)
+    nper = set()
+    for k, s in ctx.cg.callers_of(lambda nm: nm == 'transform::Transform2::periodic'):
+        sp = f.bodies[k].blocks[s['bb']]['term'].get('span') or {}
+        nper.add((sp.get('file'), sp.get('line'), sp.get('col')))
+    rep.check(len(nper) == 1, 'R3', 'single-wrap-site', where(b), 'one call site of periodic', 'periodic is called from %d places' % len(nper))
 
 
 def _yielded_placement(ctx, nst, ys, lp, b):
